@@ -159,6 +159,7 @@ Definition claim (m : mode) (st : ring) (required : Z) : outcome (ring * option 
       end
   end.
 
+(* ghost write number of a padding piece: negative *)
 Definition pad_slot (p padding owner sq : Z) : slot := mkSlot p padding padding PAD [] owner sq.
 Definition pad_slots (p padding owner sq : Z) : list slot :=
   if padding =? 0 then [] else [pad_slot p padding owner sq].
@@ -173,7 +174,7 @@ Definition write_as (m : mode) (st : ring) (typ : Z) (body : list Z) (owner sq :
       match (rl <- add32 m len HL ;; rq <- ralign m rl ;; c <- claim m st rq ;; Ok (rl, rq, c)) with
       | Ok (rl, rq, (st1, None)) => (st1, Err InsufficientCapacity)
       | Ok (rl, rq, (st1, Some (tl, padding))) =>
-          (set_slots st1 (r_slots st1 ++ pad_slots tl padding owner sq
+          (set_slots st1 (r_slots st1 ++ pad_slots tl padding owner (- 1 - sq)
                           ++ [mkSlot (tl + padding) rq rl typ body owner sq]), Ok 0)
       | Err e => (st, Err e)
       | Panic => (st, Panic) | Hang => (st, Hang) | Crash => (st, Crash)
